@@ -478,10 +478,24 @@ func (g *GoBackNConn) sendPacketsForever() error {
 			return err
 		}
 
+		// pongStartedOnFullWindow is set if the pong timer was started
+		// by a ping tick of the full-window wait below, i.e. not for a
+		// ping of ours but for the packets that were filling the window.
+		pongStartedOnFullWindow := false
+
 		for {
 			// If the queue size is still less than N, we can
 			// continue to add more packets to the queue.
 			if g.sendQueue.size() < g.cfg.n {
+				// An ACK has freed the window. If it was
+				// processed just before we started the pong
+				// timer below, the receive loop's pause came
+				// too early and the timer would now run with
+				// nothing left that the peer could answer.
+				if pongStartedOnFullWindow {
+					g.pongTicker.Pause()
+				}
+
 				break
 			}
 
@@ -522,6 +536,8 @@ func (g *GoBackNConn) sendPacketsForever() error {
 				if !g.pongTicker.IsActive() {
 					g.pongTicker.Reset()
 					g.pongTicker.Resume()
+
+					pongStartedOnFullWindow = true
 				}
 
 				g.pingTicker.Reset()
